@@ -12,7 +12,8 @@ LEVEL_TEXT = ("Machine-checked Lean 4 theorems, for all rational inputs, that ea
               "hand model (bridge lemmas), and the C++ is executed against them exhaustively on the integer grid.")
 LEVEL_NOTE = ("Trusted: Lean kernel (+leanchecker in thorough); axioms propext/Classical.choice/Quot.sound; cpp2lean + clang AST "
               "(validated each run by exhaustive C++-vs-generated-kernel agreement); IEEE-754 exactness of +,-,* on representable "
-              "results (division compared to 1e-9). inPoly, inPolyGen and segmentShapeIntersect (loops / reference parameter) are "
+              "results (division compared to 1e-9). inPoly (indexed loop with early return) is also regenerated and bridged, including "
+              "in-bounds vector accesses; inPolyGen and segmentShapeIntersect (array mutation / reference parameter) are "
               "hand-modelled, tied by exhaustive correspondence only; inPolyGen has no geometric-meaning theorem (crossing-number "
               "argument not formalised).")
 TECHNIQUE = "Lean 4 proof about kernels regenerated from the C++ (cpp2lean) + exhaustive grid correspondence"
